@@ -26,6 +26,9 @@ CHECKS = {
  'C02': dict(cat='proof', tech='deductive: serialize(v) == Cassandra-serializer spec bytes as postconditions (fixed-width ints, date, time, zig-zag, vints, uvint, varint with an inductive loop invariant for all integers); bounded stand-ins for decimal and the out-of-range-raises clause of vints',
              text='Byte-exactness is a postcondition against spec functions transcribed from Cassandra\'s serializers, discharged for all values (varint: unbounded integers via loop invariant + assumed monotonicity lemma of 2^k). Decimal and out-of-range vint values are bounded stand-ins (labelled in the evidence, not counted as proved).',
              ref='DESIGN.md §4 C02'),
+ 'C01': dict(cat='proof', tech='deductive: deserialize(serialize(v)) == norm(v) as postconditions on the real codec pairs; type constructors proved parametrically in an uninterpreted element codec (sizes unrolled to 3); bounded stand-ins for timestamp/decimal/inet and nested real types',
+             text='Scalars are proved for all values and all protocol versions; list/set/map/tuple/UDT/vector are proved for any element codec satisfying the codec contract, all versions, None elements and empty collections, with collection size/arity unrolled to 3 (stated bound); nesting follows by structural induction over those obligations. Library-backed types (timestamp, decimal, inet) are bounded stand-ins, labelled.',
+             ref='DESIGN.md §4 C01'),
 }
 
 NA_REASON = {}
